@@ -52,7 +52,7 @@ Fixpoint split_on (c : Z) (s : list Z) : list (list Z) :=
 
 (* ---------- Accept-* elements and their order ---------- *)
 
-(** one AcceptElement: value, qvalue in thousandths, str(element) *)
+(** one AcceptElement: value, qvalue in a fixed-point scale (only compared: P_negotiate_scale; the harness uses millionths), str(element) *)
 Record elem := Elem { e_val : list Z; e_q : Z; e_str : list Z }.
 
 (** AcceptElement.__lt__ *)
